@@ -146,9 +146,13 @@ class LoopState:
         self.store, self.entry_store = store, entry_store
 
     def var(self, name):
+        if name not in self.vars:
+            raise Unsupported(f"the loop invariant refers to variable {name!r}, which the code no longer has")
         return self.vars[name]
 
     def old(self, name):
+        if name not in self.entry_vars:
+            raise Unsupported(f"the loop invariant refers to variable {name!r}, which the code no longer has")
         return self.entry_vars[name]
 
     def contents(self, obj, entry=False):
